@@ -112,6 +112,10 @@ def merge_round(rep, pid, cases, tier, tagsrc='gen'):
             for j, (b, af) in enumerate(zip(o['before'], o['after'])):
                 if b != af:
                     fails.append(('inputs', 'input %d changed by from_sequence (status %s)' % (j, o['status'])))
+            if o['status'] == 'ok' and pid == 'C13':
+                o2 = SM.run_merge(c)
+                if o2['status'] == 'ok':
+                    fails += [('alias', f) for f in SM.alias_probe(o2['inputs'], o2['result'])]
         for sig, f in fails[:1]:
             def failing(cc, sig=sig):
                 oo = SM.run_merge(cc)
@@ -174,6 +178,10 @@ def subset_round(rep, pid, cases, tier):
                 fails += [('minimal', f) for f in SM.oracle_minimal(o['result'])]
         if 'inputs' in sel and o['before'] != o['after']:
             fails.append(('inputs', 'parent changed by get_subset'))
+        if 'inputs' in sel and o['status'] == 'ok' and pid == 'C13':
+            o2 = SM.run_subset(c, dim, idx)
+            if o2['status'] == 'ok':
+                fails += [('alias', f) for f in SM.alias_probe([o2['parent']], o2['result'])]
         for sig, f in fails[:1]:
             if o['status'] != 'ok':
                 sig = 'raise:' + (o.get('error') or o['status']).split('(')[0]
